@@ -1184,13 +1184,15 @@ static int rtr_sync_receive_and_store_pdus(struct rtr_socket *rtr_socket)
 					// undo all record updates, except the last which produced the error
 					RTR_DBG("Error during data synchronisation, recovering Serial Nr. %u state",
 						rtr_socket->serial_number);
-					for (unsigned int j = 0; j < i && retval == PFX_SUCCESS; j++)
+					// undo in reverse order, a record may occur in several PDUs
+					for (unsigned int j = i; j-- > 0 && retval == PFX_SUCCESS;)
 						retval = rtr_undo_update_pfx_table(rtr_socket, pfx_update_table,
 										   &(ipv4_pdus[j]));
-					if (retval == RTR_ERROR) {
+					if (retval != PFX_SUCCESS) {
 						RTR_DBG1(
 							"Couldn't undo all update operations from failed data synchronisation: Purging all records");
 						pfx_table_src_remove(rtr_socket->pfx_table, rtr_socket);
+						spki_table_src_remove(rtr_socket->spki_table, rtr_socket);
 						rtr_socket->request_session_id = true;
 					}
 					rtr_change_socket_state(rtr_socket, RTR_ERROR_FATAL);
@@ -1205,16 +1207,18 @@ static int rtr_sync_receive_and_store_pdus(struct rtr_socket *rtr_socket)
 					// undo all record updates if error occurred
 					RTR_DBG("Error during data synchronisation, recovering Serial Nr. %u state",
 						rtr_socket->serial_number);
-					for (unsigned int j = 0; j < ipv4_pdus_nindex && retval == PFX_SUCCESS; j++)
-						retval = rtr_undo_update_pfx_table(rtr_socket, pfx_update_table,
-										   &(ipv4_pdus[j]));
-					for (unsigned int j = 0; j < i && retval == PFX_SUCCESS; j++)
+					// undo in reverse order, a record may occur in several PDUs
+					for (unsigned int j = i; j-- > 0 && retval == PFX_SUCCESS;)
 						retval = rtr_undo_update_pfx_table(rtr_socket, pfx_update_table,
 										   &(ipv6_pdus[j]));
-					if (retval == PFX_ERROR) {
+					for (unsigned int j = ipv4_pdus_nindex; j-- > 0 && retval == PFX_SUCCESS;)
+						retval = rtr_undo_update_pfx_table(rtr_socket, pfx_update_table,
+										   &(ipv4_pdus[j]));
+					if (retval != PFX_SUCCESS) {
 						RTR_DBG1(
 							"Couldn't undo all update operations from failed data synchronisation: Purging all records");
 						pfx_table_src_remove(rtr_socket->pfx_table, rtr_socket);
+						spki_table_src_remove(rtr_socket->spki_table, rtr_socket);
 						rtr_socket->request_session_id = true;
 					}
 					rtr_change_socket_state(rtr_socket, RTR_ERROR_FATAL);
@@ -1230,22 +1234,21 @@ static int rtr_sync_receive_and_store_pdus(struct rtr_socket *rtr_socket)
 				    SPKI_ERROR) {
 					RTR_DBG("Error during router key data synchronisation, recovering Serial Nr. %u state",
 						rtr_socket->serial_number);
-					for (unsigned int j = 0; j < ipv4_pdus_nindex && retval == PFX_SUCCESS; j++)
-						retval = rtr_undo_update_pfx_table(rtr_socket, pfx_update_table,
-										   &(ipv4_pdus[j]));
-					for (unsigned int j = 0; j < ipv6_pdus_nindex && retval == PFX_SUCCESS; j++)
-						retval = rtr_undo_update_pfx_table(rtr_socket, pfx_update_table,
-										   &(ipv6_pdus[j]));
-					for (unsigned int j = 0;
-					// cppcheck-suppress duplicateExpression
-					     j < i && (retval == PFX_SUCCESS || retval == SPKI_SUCCESS); j++)
+					// undo in reverse order, a record may occur in several PDUs
+					for (unsigned int j = i; j-- > 0 && retval == SPKI_SUCCESS;)
 						retval = rtr_undo_update_spki_table(rtr_socket, spki_update_table,
 										    &(router_key_pdus[j]));
-					// cppcheck-suppress duplicateExpression
-					if (retval == RTR_ERROR || retval == SPKI_ERROR) {
+					for (unsigned int j = ipv6_pdus_nindex; j-- > 0 && retval == PFX_SUCCESS;)
+						retval = rtr_undo_update_pfx_table(rtr_socket, pfx_update_table,
+										   &(ipv6_pdus[j]));
+					for (unsigned int j = ipv4_pdus_nindex; j-- > 0 && retval == PFX_SUCCESS;)
+						retval = rtr_undo_update_pfx_table(rtr_socket, pfx_update_table,
+										   &(ipv4_pdus[j]));
+					if (retval != PFX_SUCCESS) {
 						RTR_DBG1(
-							"Couldn't undo all update operations from failed data synchronisation: Purging all key entries");
-						spki_table_src_remove(spki_update_table, rtr_socket);
+							"Couldn't undo all update operations from failed data synchronisation: Purging all records");
+						pfx_table_src_remove(rtr_socket->pfx_table, rtr_socket);
+						spki_table_src_remove(rtr_socket->spki_table, rtr_socket);
 						rtr_socket->request_session_id = true;
 					}
 					rtr_change_socket_state(rtr_socket, RTR_ERROR_FATAL);
